@@ -81,10 +81,16 @@ structure Quirks where
   callCopies : Bool
   /-- F05b repaired: `get_operands` sets the implicit timezone on `copy(op)` -/
   operandCopied : Bool
+  /-- F05c repaired (branch fix-c05c): the callee's dict is a copy of the closure variables, the
+  caller's variables are not visible in the body -/
+  calleeLexical : Bool
   deriving Repr, DecidableEq
 
-def Quirks.fixed : Quirks := ⟨true, true⟩
-def Quirks.pinned : Quirks := ⟨false, false⟩
+/-- branch fix-c05 (F05, F16, F05b repaired; dynamic scope of function bodies = finding F05c) -/
+def Quirks.fixed : Quirks := ⟨true, true, false⟩
+/-- branch fix-c05c (F05c repaired as well) -/
+def Quirks.lexical : Quirks := ⟨true, true, true⟩
+def Quirks.pinned : Quirks := ⟨false, false, false⟩
 
 structure Cfg where
   q : Quirks
@@ -231,13 +237,19 @@ def dedupEnv : Env → Env
   | [] => []
   | (k, v) :: r => (k, v) :: (dedupEnv r).filter (·.1 != k)
 
+/-- the dict in which the body of a called inline function runs: the parameters on top of the
+closure variables, on top of the caller's variables (`dict(caller); update(closure)`) — or, with
+F05c repaired, on top of nothing else (`self.variables.copy()`) -/
+def calleeEnv (c : Cfg) (ps : List Name) (args : List Val) (cap ρ : Env) : Env :=
+  ps.zip args ++ (if c.q.calleeLexical then cap else cap ++ ρ)
+
 /-- `_InlineFunction.__call__`: `context = copy(context)`; the dict is the caller's dict
 (pinned) or a copy of it (F05 repaired); `update(self.variables)`; parameters bound; body
 evaluated.  Returns the caller's dict as the caller sees it afterwards. -/
 def applyFn (c : Cfg) (ps : List Name) (body : Expr) (cap : Env) (args : List Val)
     (ρ : Env) (h : Heap) : Res :=
   if ps.length ≠ args.length then .error .type else
-  match ev body (ps.zip args ++ (cap ++ ρ)) h with
+  match ev body (calleeEnv c ps args cap ρ) h with
   | .error e => .error e
   | .ok (v, ρ', h') => .ok (v, if c.q.callCopies then ρ else dedupEnv ρ', h')
 
